@@ -7,6 +7,7 @@ package symex
 import (
 	"go/types"
 	"strings"
+	"unicode"
 
 	"golang.org/x/tools/go/ssa"
 	"vcheck/smt"
@@ -42,7 +43,7 @@ func (e *Engine) valueEqDeep(a, b Value) *smt.Term {
 		}
 		r := smt.True
 		for i := range x.F {
-			r = smt.And(r, e.valueEqDeep(x.F[i], y.F[i]))
+			r = smt.BAnd(r, e.valueEqDeep(x.F[i], y.F[i]))
 		}
 		return r
 	case *ArrayV:
@@ -52,7 +53,7 @@ func (e *Engine) valueEqDeep(a, b Value) *smt.Term {
 		}
 		r := smt.True
 		for i := range x.E {
-			r = smt.And(r, e.valueEqDeep(x.E[i], y.E[i]))
+			r = smt.BAnd(r, e.valueEqDeep(x.E[i], y.E[i]))
 		}
 		return r
 	}
@@ -235,5 +236,37 @@ func init() {
 			return smt.True, true
 		}
 		return smt.False, true
+	}
+}
+
+// unicode predicates: exact for constant runes (Go's own tables); unicode.IsSpace also for symbolic runes
+// (its set is small). The package's tables are not initialised symbolically, so without these a rune above
+// Latin-1 would dereference a nil table.
+func init() {
+	pred := func(f func(rune) bool) handler {
+		return func(e *Engine, fr *Frame, args []Value) (Value, bool) {
+			r, ok := args[0].(*smt.Term)
+			if !ok || !r.IsConst() {
+				return nil, false
+			}
+			return smt.Bool(f(rune(int32(r.Const())))), true
+		}
+	}
+	_ = pred
+	intrinsics["unicode.IsSpace"] = func(e *Engine, fr *Frame, args []Value) (Value, bool) {
+		r := args[0].(*smt.Term)
+		if r.IsConst() {
+			return smt.Bool(unicode.IsSpace(rune(int32(r.Const())))), true
+		}
+		eq := func(c uint64) *smt.Term { return smt.Eq(r, smt.BV(c, 32)) }
+		rng := func(lo, hi uint64) *smt.Term {
+			return smt.BAnd(smt.Cmp(smt.OpUle, smt.BV(lo, 32), r), smt.Cmp(smt.OpUle, r, smt.BV(hi, 32)))
+		}
+		t := smt.BOr(rng(0x09, 0x0d), eq(0x20))
+		for _, c := range []uint64{0x85, 0xA0, 0x1680, 0x2028, 0x2029, 0x202f, 0x205f, 0x3000} {
+			t = smt.BOr(t, eq(c))
+		}
+		t = smt.BOr(t, rng(0x2000, 0x200a))
+		return t, true
 	}
 }
